@@ -149,7 +149,7 @@ impl SignerRunner {
     //@ rewrite /self\.services\.epoch_service\.read\(\)\.await/ => /&self.services.epoch_service/
     //@ rewrite /\.await/ => //
     //@ rewrite /StdResult<\(\)>/ => /Result<(), StdError>/
-    //@ rewrite? /(?s)debug!\(.*?\);[ \t]*\n/ => //
+    //@ rewrite? /(?s)(?:slog::)?(?:debug|info|warn|trace|error)!\(.*?\);[ \t]*\n/ => //
     //@ rewrite /(?s)\.ok_or_else\(\|\| \{\s*RunnerError::NoValueError\(format!\(.*?\)\)\s*\}\)\?/ => /.ok_or(StdError {})?/
     //@ rewrite /\.ok_or_else\(RunnerError::NoStakeForSelf\)\?/ => /.ok_or(StdError {})?/
     //@ rewrite /(?s)let \(operational_certificate, protocol_operational_certificate\) = match &self\s*\.config\s*\.operational_certificate_path\s*\{.*?\n        \};/ => /let (operational_certificate, protocol_operational_certificate) = load_operational_certificate(&self.config)?;/
@@ -180,7 +180,7 @@ impl SignerRunner {
     //@ rewrite /async fn/ => /fn/
     //@ rewrite /\.await/ => //
     //@ rewrite /StdResult<\(\)>/ => /Result<(), StdError>/
-    //@ rewrite? /(?s)debug!\(.*?\);[ \t]*\n/ => //
+    //@ rewrite? /(?s)(?:slog::)?(?:debug|info|warn|trace|error)!\(.*?\);[ \t]*\n/ => //
     //@ rewrite /(?s)let exists_stake_distribution = !self\s*\.services\s*\.stake_store\s*\.get_stakes\((.*?)\)\s*\?\s*\.unwrap_or_default\(\)\s*\.is_empty\(\);/ => /let exists_stake_distribution = has_stakes(self.services.stake_store.get_stakes(\1)?);/
     //@ rewrite /(?s)\.ok_or_else\(\|\| RunnerError::NoValueError\(.*?\)\)\?/ => /.ok_or(StdError {})?/
     //@ spec requires epoch.0 < u64::MAX
